@@ -50,8 +50,8 @@ def reference(L, name, t, args, kw):
         if name == '__len__':
             return 'value', len(t)
         if name == '__contains__':
-            if not isinstance(a[0], str) or '\x1b' in a[0]:
-                return 'skip', None     # a str operand is parsed for escape sequences by design: outside the claim
+            if not isinstance(a[0], str):
+                return 'skip', None
             return 'value', a[0] in t
         if name in ('strip', 'lstrip', 'rstrip'):
             chars = arg(0, 'chars')
